@@ -148,10 +148,36 @@ def _focused_texts(rng: random.Random) -> list[str]:
     return texts
 
 
+def _collision_texts(rng: random.Random) -> list[str]:
+    """Near-identical atoms - same operator and literal under two variables, same variable and literal under two
+    operators, one literal in two spellings - plus partners to merge them with: a memo keyed on less than the
+    whole operand (a dropped name, a normalised literal, a missing operator) confuses exactly these."""
+    if rng.random() < 0.7:
+        x = rng.choice([7, 8, 9, 10])
+        names = rng.sample(["python_version", "python_full_version", "platform_release"], 2)
+        ops = rng.choice([["in", "not in"], ["~=", ">="], ["==", "!="], ["<", "<="], [">", ">="], ["~=", "=="]])
+        if ops[0] == "in":
+            values = [f"3.{x}", rng.choice([f"3.{x}, 3.{x + 1}", f"3.{x}.0"])]
+        else:
+            values = [f"3.{x}", f"3.{x}.0"]
+        partners = [f'python_version >= "3.{x - 1}"', f'python_full_version < "3.{x + 1}.2"', f'python_version != "3.{x + 1}"',
+                    f'platform_release >= "3.{x - 2}"', 'sys_platform == "linux"']
+    else:
+        names = rng.sample(["sys_platform", "platform_system", "os_name", "platform_machine"], 2)
+        ops = rng.choice([["==", "!="], ["in", "not in"], ["==", "in"], ["!=", "not in"]])
+        values = rng.choice([["linux", "Linux"], ["linux", "linux2"], ["x86_64", "x86-64"], ["nt", "nt "]])
+        partners = [f'{names[0]} != "darwin"', f'{names[1]} != "darwin"', f'{names[0]} in "linux darwin"', 'python_version >= "3.8"']
+    texts = [f'{n} {o} "{v}"' for n in names for o in ops for v in values]
+    texts += rng.sample(partners, 3)
+    return texts
+
+
 def gen_history(seed: int, length: int) -> list[dict]:
     rng = random.Random(seed)
     variables = rng.choice(POOL_VARS)
-    if seed % 2 == 0:
+    if seed % 4 == 1:
+        texts = _collision_texts(rng)
+    elif seed % 2 == 0:
         texts = _focused_texts(rng)
     else:
         texts = [drive_marker.gen_marker(rng, variables, rng.choice([0, 0, 1])) for _ in range(rng.randint(3, 5))]
@@ -177,9 +203,75 @@ def _timed_observe(op):
     return val, exc
 
 
+SERVER_SCRIPT = r'''
+import json, os, signal, sys
+sys.path.insert(0, "/verif")
+from harness import check_memo            # imports dep_logic; performs no operation: the state of a fresh interpreter
+def _alarm(*a):
+    raise TimeoutError()
+for line in sys.stdin:
+    op = json.loads(line)
+    r, w = os.pipe()
+    pid = os.fork()                       # the child starts from the pristine state, whatever was asked before
+    if pid == 0:
+        os.close(r)
+        signal.signal(signal.SIGALRM, _alarm)
+        signal.alarm(4)
+        try:
+            t, tab = check_memo.observe(check_memo.run_op(op))
+            res = [t, tab, ""]
+        except TimeoutError:
+            res = ["", [], "Timeout"]
+        except Exception as e:
+            res = ["", [], type(e).__name__]
+        os.write(w, json.dumps(res).encode())
+        os._exit(0)
+    os.close(w)
+    buf = b""
+    while True:
+        chunk = os.read(r, 65536)
+        if not chunk:
+            break
+        buf += chunk
+    os.close(r)
+    os.waitpid(pid, 0)
+    sys.stdout.write((buf.decode() or json.dumps(["", [], "ChildDied"])) + "\n")
+    sys.stdout.flush()
+'''
+
+
+class ColdServer:
+    """`cold(op)`: the operation alone in a process forked from an interpreter that has imported the library and
+    done nothing else - what the statement calls "first in a fresh interpreter" (module-level caches of any kind,
+    not only the lru_caches clear_caches() knows, are empty there)."""
+
+    def __init__(self):
+        self.p = subprocess.Popen([sys.executable, "-c", SERVER_SCRIPT], stdin=subprocess.PIPE, stdout=subprocess.PIPE, text=True, env=dict(os.environ))
+
+    def cold(self, op: dict):
+        try:
+            self.p.stdin.write(json.dumps(op) + "\n")
+            self.p.stdin.flush()
+            line = self.p.stdout.readline()
+            t, tab, exc = json.loads(line)
+        except Exception as e:  # noqa: BLE001
+            raise tla.MachineryError(f"cold server failed: {e!r}")
+        if exc == "ChildDied":
+            raise tla.MachineryError("cold server child died")
+        return ((t, tab) if not exc else None), exc
+
+    def close(self):
+        try:
+            self.p.stdin.close()
+            self.p.wait(timeout=10)
+        except Exception:  # noqa: BLE001
+            self.p.kill()
+
+
 def _b3_chunk(args):
     seeds, length, rerender = args
     fails, n, skipped = [], 0, 0
+    server = ColdServer()
     for seed in seeds:
         hist = gen_history(seed, length)
         drive_marker.clear_caches()
@@ -195,8 +287,7 @@ def _b3_chunk(args):
             if wexc == "Timeout":
                 skipped += 1
                 break
-            drive_marker.clear_caches()
-            c, cexc = _timed_observe(hist[i])
+            c, cexc = server.cold(hist[i])
             if cexc == "Timeout":
                 skipped += 1
                 continue
@@ -214,6 +305,7 @@ def _b3_chunk(args):
                 if "group-order" in cls:
                     sig += ":" + _operand_class(hist[i])
                 fails.append((sig, f"history seed {seed} position {i}: {hist[i]} prints {w[0]!r} warm, {c[0]!r} cold", dict(ctx, warm=w[0], cold=c[0])))
+    server.close()
     drive_marker.clear_caches()
     return n, fails, skipped
 
